@@ -126,7 +126,7 @@ theorem C09_sequence_id_starts_with_3 (id : Nat) (h : id / 100000 = 3) : (zpad 6
 
 /-! ### nested text -> flat -/
 
-theorem C09T_range_getElem_opt {α : Type} (l : List α) :
+theorem text_range_getElem_opt {α : Type} (l : List α) :
     (List.range l.length).map (fun i => l[i]?) = l.map some := by
   apply List.ext_getElem
   · simp
@@ -134,14 +134,14 @@ theorem C09T_range_getElem_opt {α : Type} (l : List α) :
     simp only [List.length_map, List.length_range] at h1
     simp [h1]
 
-theorem C09T_map_some_inj {α : Type} : ∀ (a b : List α), a.map some = b.map some → a = b
+theorem text_map_some_inj {α : Type} : ∀ (a b : List α), a.map some = b.map some → a = b
   | [], [], _ => rfl
   | [], _ :: _, h => by cases h
   | _ :: _, [], h => by cases h
   | x :: xs, y :: ys, h => by
     rw [List.map_cons, List.map_cons] at h
     injection h with h1 h2
-    rw [Option.some.inj h1, C09T_map_some_inj xs ys h2]
+    rw [Option.some.inj h1, text_map_some_inj xs ys h2]
 
 /-- One subset.  `src` is the subset the tree was wired from: the subset itself for uncompressed data, subset 0
     for compressed data (all subsets share its node list).  MISSING for the full statement: `hs`, `ht`
@@ -166,8 +166,8 @@ theorem C09_nested_text_subset_partial (env : TextEnv) (ev : Line → Option PyL
     obtain ⟨l, hbl, hadds, hm⟩ := textList_tree env ev o hrepr w.st.tab w.fuel h2 w.nodes tree [] bs h1 ht htree hbs indentOK_nil
     rw [C09_wire_indices_consecutive t src w h, hn] at hm
     unfold valsAtT at hm
-    rw [C09T_range_getElem_opt] at hm
-    have hv : (l.map Prod.snd).flatten = o.vals := C09T_map_some_inj _ _ hm
+    rw [text_range_getElem_opt] at hm
+    have hv : (l.map Prod.snd).flatten = o.vals := text_map_some_inj _ _ hm
     have := adds_flatten ev l hadds rest pre cur
     rw [hbl, this, hv]
 
@@ -181,7 +181,7 @@ structure TextSubset where
 def TextSubset.OK (t : List Desc) (s : TextSubset) : Prop :=
   ∃ w, wireRaw t s.src = .ok w ∧ w.sideOK s.out = true ∧ w.tree = .ok s.tree ∧ textOKList s.out s.tree = true
 
-theorem C09T_subsets_loop (env : TextEnv) (ev : Line → Option PyLit) (t : List Desc) (n : Nat) (hdr : Line)
+theorem text_subsets_loop (env : TextEnv) (ev : Line → Option PyLit) (t : List Desc) (n : Nat) (hdr : Line)
     (rest : List Line) (hhdr : ntClassify ev hdr = .stop) :
     ∀ (subs : List TextSubset) (i : Nat) (lines : List Line) (pre : List (List PyLit)),
       (∀ s ∈ subs, s.OK t) → (∀ s ∈ subs, ∀ v ∈ s.out.vals, ReprOK env ev v) →
@@ -221,7 +221,7 @@ theorem C09T_subsets_loop (env : TextEnv) (ev : Line → Option PyLit) (t : List
         simp only
         rw [List.append_assoc, C09_nested_text_subset_partial env ev t s.src s.out w s.tree ls hw hs htree ht hls
           (hrepr s (by simp)) _ pre []]
-        rw [C09T_subsets_loop env ev t n hdr rest hhdr subs (i + 1) more _ (fun s' hs' => hok s' (by simp [hs']))
+        rw [text_subsets_loop env ev t n hdr rest hhdr subs (i + 1) more _ (fun s' hs' => hok s' (by simp [hs']))
           (fun s' hs' => hrepr s' (by simp [hs'])) hmore]
         simp
 
@@ -237,7 +237,7 @@ theorem C09_nested_text_to_flat_partial (env : TextEnv) (ev : Line → Option Py
     nestedTextToFlat ev (lines ++ hdr :: rest) = .ok (hdr :: rest, subs.map fun s => s.out.vals.map PyLit.val) := by
   unfold nestedTextToFlat
   unfold nestedTextLines at hl
-  rw [C09T_subsets_loop env ev t _ hdr rest hhdr subs 0 lines [] hok hrepr hl]
+  rw [text_subsets_loop env ev t _ hdr rest hhdr subs 0 lines [] hok hrepr hl]
   rfl
 
 /-- the section header that ends the template data (`<<<<<< section 5 >>>>>>`) stops the nested text loop -/
@@ -247,5 +247,252 @@ theorem C09_nested_text_section_header_stops (ev : Line → Option PyLit) (tail 
   have e : sectionMark ++ tail ++ [c] = [] ++ ('<' :: ((['<', '<', '<', '<', '<'] ++ tail) ++ [c])) := by simp [sectionMark]
   rw [e, norm_cons [] _ '<' indentOK_nil (by decide) (by decide), pyRstrip_concat _ c hc]
   simp [startsWith_cons, sectionMark, startsWith_nil_left]
+
+/-! ### non-vacuity: a concrete `repr` / `literal_eval` pair and concrete messages -/
+
+namespace TextEx
+
+def intStr (i : Int) : Line := if i < 0 then '-' :: natStr i.natAbs else natStr i.toNat
+
+/-- a `repr`: `None`, decimal integers, `b'...'` / `b"..."` for bytes (adequate for bytes without backslash and
+    with at most one kind of quote), a fixed token for non-integers -/
+def exRepr : Val → Line
+  | .missing => "None".toList
+  | .int i => intStr i
+  | .num _ _ => "0.5".toList
+  | .bytes b =>
+    let q := if b.contains 39 then '"' else '\''
+    'b' :: q :: (b.map fun x => Char.ofNat x.toNat) ++ [q]
+
+/-- the values the examples use, with their tokens (the finite part of `literal_eval` that matters) -/
+def exVals : List Val :=
+  [.missing, .int 1, .int 2, .int 5, .int 6, .int 99, .int 280, .int 281, .int 9, .bytes [65, 32, 98, 39, 66], .bytes [65, 66]]
+
+def exEvPlain (tok : Line) : Option Val := exVals.find? fun v => exRepr v == tok
+
+/-- a `literal_eval`: a token `(x, ...` is a tuple with first item `x` -/
+def exEv (tok : Line) : Option PyLit :=
+  match tok with
+  | '(' :: r => (exEvPlain (r.takeWhile fun c => c != ',')).map PyLit.tuple
+  | _ => (exEvPlain tok).map PyLit.val
+
+def joinBits : List Nat → Line
+  | [] => []
+  | [b] => natStr b
+  | b :: bs => natStr b ++ ',' :: ' ' :: joinBits bs
+
+def exEnv : TextEnv :=
+  { reprV := exRepr
+    reprFlag := fun v bits => '(' :: exRepr v ++ ',' :: ' ' :: '[' :: joinBits bits ++ [']', ')']
+    name := fun id => if id = 12001 then "TEMPERATURE/AIR TEMPERATURE -> A b' # <<<<<< and more and more text to run over the column".toList
+                      else if id = 2002 then "TYPE OF INSTRUMENTATION = 3".toList else []
+    isFlag := fun id => id = 2002 }
+
+/-- decidable form of the hypotheses for one value of the example table -/
+def tokChecks (v : Val) : Bool :=
+  let tok := exRepr v
+  exEvPlain tok == some v && !tok.isEmpty && !(tok.head?.any isPySpace) && !(tok.getLast?.any isPySpace) &&
+  !tok.contains ',' && tok.head? != some '(' &&
+  (match v with
+   | .bytes _ => (match tok with
+      | 'b' :: q :: r => quoteChars.contains q && r.getLast? == some q && pyRfind [' ', 'b', q] ('b' :: q :: r.dropLast) == none
+      | _ => false)
+   | _ => !tok.contains ' ' && !(tok.getLast?.any quoteChars.contains))
+
+theorem reprOK_of_checks (v : Val) (h : tokChecks v = true) : ReprOK exEnv exEv v := by
+  have hre : exEnv.reprV = exRepr := rfl
+  simp only [tokChecks, Bool.and_eq_true, Bool.not_eq_true', beq_iff_eq, bne_iff_ne, ne_eq] at h
+  obtain ⟨⟨⟨⟨⟨⟨hev, hne⟩, hh⟩, hl⟩, hcomma⟩, hparen⟩, hshape⟩ := h
+  have hne' : exRepr v ≠ [] := by
+    intro e; rw [e] at hne; simp at hne
+  have hedge : EdgesOK (exRepr v) := by
+    refine ⟨hne', ?_, ?_⟩
+    · intro c hc; rw [hc] at hh; simpa using hh
+    · intro c hc; rw [hc] at hl; simpa using hl
+  have hplainEv : exEv (exRepr v) = some (.val v) := by
+    unfold exEv
+    split
+    · next r hr => rw [hr] at hparen; simp at hparen
+    · rw [hev]; rfl
+  refine ⟨by rw [hre]; exact hplainEv, ?_, by rw [hre]; exact hedge, ?_, ?_, ?_⟩
+  · intro bits
+    show exEv ('(' :: exRepr v ++ ',' :: ' ' :: '[' :: joinBits bits ++ [']', ')']) = _
+    unfold exEv
+    simp only [List.cons_append]
+    have : List.takeWhile (fun c => c != ',') (exRepr v ++ ',' :: ' ' :: '[' :: (joinBits bits ++ [']', ')'])) = exRepr v := by
+      apply takeWhile_append_stop _ ',' (by simp)
+      intro x hx
+      have : x ≠ ',' := by
+        intro e; subst e
+        have : (exRepr v).contains ',' = true := by simpa using hx
+        rw [this] at hcomma; cases hcomma
+      simp [this]
+    simp only [List.append_assoc, List.cons_append] at this ⊢
+    rw [this, hev]; rfl
+  · intro bits
+    show EdgesOK ('(' :: exRepr v ++ ',' :: ' ' :: '[' :: joinBits bits ++ [']', ')'])
+    refine ⟨by simp, ?_, ?_⟩
+    · intro c hc
+      simp only [List.cons_append, List.head?_cons, Option.some.injEq] at hc
+      subst hc; decide
+    · intro c hc
+      have e : '(' :: exRepr v ++ ',' :: ' ' :: '[' :: joinBits bits ++ [']', ')'] =
+          ('(' :: exRepr v ++ ',' :: ' ' :: '[' :: joinBits bits ++ [']']) ++ [')'] := by simp
+      rw [e, List.getLast?_concat] at hc
+      injection hc with hc
+      subst hc; decide
+  · intro b hb
+    subst hb
+    rw [hre]
+    simp only at hshape
+    split at hshape
+    · next q r htok =>
+      simp only [Bool.and_eq_true, beq_iff_eq] at hshape
+      obtain ⟨⟨hq, hlast⟩, hfind⟩ := hshape
+      have hr : r ≠ [] := by intro e; rw [e] at hlast; simp at hlast
+      refine ⟨q, r.dropLast, ?_, ?_, hfind⟩
+      · simpa [quoteChars] using hq
+      · rw [htok]
+        have : r = r.dropLast ++ [q] := by
+          have h1 := (List.dropLast_concat_getLast hr).symm
+          have h2 : r.getLast hr = q := by
+            have := List.getLast?_eq_some_getLast hr
+            rw [this] at hlast
+            exact Option.some.inj hlast
+          rw [h2] at h1
+          exact h1
+        rw [List.cons_append, List.cons_append, ← this]
+    · cases hshape
+  · intro hnb
+    have hs : (!(exRepr v).contains ' ' && !((exRepr v).getLast?.any quoteChars.contains)) = true := by
+      cases v with
+      | bytes b => exact absurd rfl (hnb b)
+      | missing => exact hshape
+      | int i => exact hshape
+      | num m s => exact hshape
+    simp only [Bool.and_eq_true, Bool.not_eq_true'] at hs
+    rw [hre]
+    refine ⟨?_, ?_⟩
+    · intro c hc e
+      subst e
+      have : (exRepr v).contains ' ' = true := by simpa using hc
+      rw [this] at hs; cases hs.1
+    · intro c hc
+      rw [hc] at hs
+      have := hs.2
+      simp only [Option.any_some, quoteChars, List.contains_cons, List.contains_nil, Bool.or_false, Bool.or_eq_false_iff,
+        beq_eq_false_iff_ne, ne_eq] at this
+      exact this
+
+/-- every value of the example table satisfies the hypotheses `ReprOK` (the bytes value is `A b'B`: it holds
+    the very sequence the nested text converter searches for, escaped by `repr`... here by the table) -/
+theorem exVals_reprOK : ∀ v ∈ exVals, ReprOK exEnv exEv v := by
+  intro v hv
+  apply reprOK_of_checks
+  have : ∀ v ∈ exVals, tokChecks v = true := by decide +kernel
+  exact this v hv
+
+end TextEx
+open TextEx
+
+/-- the section header that follows the template data -/
+def exHdr : Line := "<<<<<< section 5 >>>>>>".toList
+
+/-- flat text, two subsets: a flag table element (tuple token), a linked value (the `-> N` layout), a name
+    longer than the column, a missing value, bytes; descriptor and value lists of equal length -/
+def exFlatOuts : List SubsetOut :=
+  [{ descs := [.plain (exE 12001 12), .plain (exE 2002 4), .marker 223255 (exE 12001 12), .plain { id := 1015, kind := .string, nbits := 40, scale := 0, ref := 0 }]
+     vals := [.int 280, .int 9, .int 281, .bytes [65, 32, 98, 39, 66]], links := [(2, 0)] },
+   { descs := [.plain (exE 12001 12), .plain (exE 2002 4), .marker 223255 (exE 12001 12), .plain { id := 1015, kind := .string, nbits := 40, scale := 0, ref := 0 }]
+     vals := [.missing, .missing, .int 5, .bytes [65, 66]], links := [(2, 0)] }]
+
+/-- the lines are, character by character, what Python's format strings give for these values and names -/
+example : (flatTextLines exEnv exFlatOuts).map String.ofList =
+    ["###### subset 1 of 2 ######",
+     "    1 012001 TEMPERATURE/AIR TEMPERATURE -> A b' # <<<<<< and more and more text 280",
+     "    2 002002 TYPE OF INSTRUMENTATION = 3                                         (9, [1, 4])",
+     "    3 T12001                                                           ->      1 281",
+     "    4 001015                                                                     b\"A b'B\"",
+     "###### subset 2 of 2 ######",
+     "    1 012001 TEMPERATURE/AIR TEMPERATURE -> A b' # <<<<<< and more and more text None",
+     "    2 002002 TYPE OF INSTRUMENTATION = 3                                         None",
+     "    3 T12001                                                           ->      1 5",
+     "    4 001015                                                                     b'AB'"] := by decide +kernel
+
+/-- the hypotheses of `C09_flat_text_to_flat_values` hold on this input ... -/
+example : (∀ o ∈ exFlatOuts, ∀ v ∈ o.vals, ReprOK exEnv exEv v) ∧ (∀ o ∈ exFlatOuts, o.descs.length = o.vals.length) ∧
+    startsWith sectionMark exHdr = true := by
+  refine ⟨?_, by decide, by decide +kernel⟩
+  intro o ho v hv
+  apply exVals_reprOK
+  have : ∀ o ∈ exFlatOuts, ∀ v ∈ o.vals, v ∈ exVals := by decide +kernel
+  exact this o ho v hv
+
+/-- ... and its conclusion is what the evaluation gives -/
+example : flatTextToFlat exEv PyLit.untuple (flatTextLines exEnv exFlatOuts ++ [exHdr]) =
+    .ok ([exHdr], exFlatOuts.map fun o => o.vals.map PyLit.val) := by decide +kernel
+
+/-- nested text of the message of Props/C09.lean (`204004 031021 101000 031001 012001 204000 001001`: a delayed
+    replication under an associated field): lines ... -/
+example : ((wire exT exO >>= ntSubsetLines exEnv exO).toOption.getD []).map String.ofList =
+    ["204004",
+     "031021  1",
+     "101000",
+     "....031001  2",
+     "    # --- 1 of 2 replications ---",
+     "    012001 TEMPERATURE/AIR TEMPERATURE -> A b' # <<<<<< and more and more text to run over the column 280",
+     "        -> A12001 AssociatedField 5",
+     "            -> 031021  1",
+     "    # --- 2 of 2 replications ---",
+     "    012001 TEMPERATURE/AIR TEMPERATURE -> A b' # <<<<<< and more and more text to run over the column 281",
+     "        -> A12001 AssociatedField 6",
+     "            -> 031021  1",
+     "204000",
+     "001001  99"] := by decide +kernel
+
+/-- ... the hypotheses of `C09_nested_text_subset_partial` / `C09_nested_text_to_flat_partial` hold on it ... -/
+example : (wireRaw exT exO).toOption.map (fun w => (w.sideOK exO, w.tree.toOption.map (textOKList exO))) =
+    some (true, some true) := by decide +kernel
+
+example : ∀ v ∈ exO.vals, ReprOK exEnv exEv v := by
+  intro v hv
+  apply exVals_reprOK
+  have : ∀ v ∈ exO.vals, v ∈ exVals := by decide +kernel
+  exact this v hv
+
+example : ntClassify exEv exHdr = .stop := by decide +kernel
+
+/-- ... and the conclusion is what the evaluation gives (one subset) -/
+example : ((wire exT exO >>= fun tree => nestedTextLines exEnv [exO] [tree]) >>=
+      fun lines => nestedTextToFlat exEv (lines ++ [exHdr])) =
+    .ok ([exHdr], [exO.vals.map PyLit.val]) := by decide +kernel
+
+/-! ### the side conditions are needed (flat lists no decoder produces) -/
+
+/-- without `textOKList` (value line): a label whose descriptor string starts with `3` makes the converter take
+    the value line for a sequence header - the value is lost, while `Wired.sideOK` holds -/
+def exBadHead : SubsetOut := { descs := [.plain (exE 300001 8)], vals := [.int 5], links := [] }
+
+example : (wireRaw [.elem (exE 1001 8)] exBadHead).toOption.map (fun w => (w.sideOK exBadHead, w.tree.toOption.map (textOKList exBadHead))) =
+    some (true, some false) := by decide +kernel
+
+example : ((wire [.elem (exE 1001 8)] exBadHead >>= fun tree => nestedTextLines exEnv [exBadHead] [tree]) >>=
+      fun lines => nestedTextToFlat exEv (lines ++ [exHdr])) = .ok ([exHdr], [[]]) := by decide +kernel
+
+/-- without `textOKList` (deep attributes): when the entry the 031021 meaning points at carries an `A` label, the
+    meaning line below the associated field reads `-> A...` and its value is inserted a second time; nested JSON
+    (which looks at the first attribute layer only) still converts: `Wired.sideOK` holds -/
+def exBadDeep : SubsetOut :=
+  { descs := [.assoc 31021 6, .assoc 12001 4, .plain (exE 12001 12)], vals := [.int 1, .int 5, .int 280], links := [] }
+
+example : (wireRaw [.op 204004, .elem (exE 31021 6), .elem (exE 12001 12)] exBadDeep).toOption.map
+    (fun w => (w.sideOK exBadDeep, w.tree.toOption.map (textOKList exBadDeep))) = some (true, some false) := by decide +kernel
+
+example : ((wire [.op 204004, .elem (exE 31021 6), .elem (exE 12001 12)] exBadDeep >>= fun tree => nestedTextLines exEnv [exBadDeep] [tree]) >>=
+      fun lines => nestedTextToFlat exEv (lines ++ [exHdr])) =
+    .ok ([exHdr], [[.val (.int 1), .val (.int 5), .val (.int 1), .val (.int 280)]]) := by decide +kernel
+
+/-- without `ReprOK.plain_tok` (a token with a blank): `rsplit(' ', 1)[1]` cuts the token -/
+example : ntToken ("001001 NAME 1 000".toList) = "000".toList := by decide +kernel
 
 end Bufr
